@@ -795,6 +795,10 @@ func constBounds(guard *Term, b string) (lo, hi int64, rest []*Term, ok bool) {
 }
 
 func expandSmallRange(bound []*Term, body *Term, universal bool) (*Term, bool) {
+	return expandRange(bound, body, universal, 8)
+}
+
+func expandRange(bound []*Term, body *Term, universal bool, limit int64) (*Term, bool) {
 	if len(bound) != 1 {
 		return nil, false
 	}
@@ -812,7 +816,7 @@ func expandSmallRange(bound []*Term, body *Term, universal bool) (*Term, bool) {
 		guard, inner = body, True()
 	}
 	lo, hi, rest, ok := constBounds(guard, b.Op)
-	if !ok || hi-lo > 8 || hi-lo < 0 {
+	if !ok || hi-lo > limit || hi-lo < 0 {
 		return nil, false
 	}
 	var parts []*Term
